@@ -2407,11 +2407,20 @@ impl FunctionCompiler<'_> {
                                 _ => unreachable!(),
                             }
                         }
-                        ComptimeResult::Data(bytes) => {
+                        ComptimeResult::Data { .. } => {
+                            let bytes = result
+                                .clone()
+                                .into_bytes(
+                                    self.meta_tys,
+                                    self.module.isa().endianness(),
+                                    self.ptr_ty,
+                                )
+                                .unwrap();
+
                             let data = self.create_global_data(
                                 &ctc.to_mangled_name(self.mod_dir, self.interner),
                                 false,
-                                bytes.clone(),
+                                bytes,
                                 ty.align() as u64,
                             );
 
